@@ -63,6 +63,8 @@ class Power(base.BinaryExpression):
     ) -> float:
         if (not self._left._variable_names) and self._left._evaluate(point) == 1:
             # If we find something like `Constant(1) ** Whatever`, we can short-circuit.
+            # We still evaluate the exponent to check for DomainErrors.
+            self._right._evaluate(point)
             return 0
         else:
             left_value = self._left._evaluate(point)
@@ -94,7 +96,8 @@ class Power(base.BinaryExpression):
     ) -> None:
         if (not self._left._variable_names) and self._left._evaluate(point) == 1:
             # If we find something like `Constant(1) ** Whatever`, we can short-circuit.
-            pass
+            # We still evaluate the exponent to check for DomainErrors.
+            self._right._evaluate(point)
         else:
             left_value = self._left._evaluate(point)
             right_value = self._right._evaluate(point)
